@@ -163,6 +163,38 @@ impl Scenario for Bytes {
                 cfg.xt = cfg.set == 1 && (run / 8) % 2 == 1;
             }
         }
+        if self.prop == BProp::C07 && run % 16 == 9 {
+            // a raw-garbage member of the swarm: no typist at all, the host reads a byte stream
+            // that walks the three-byte windows after a boundary systematically (16 per run,
+            // each followed by one ordinary code byte, which ends any sequence), then noise
+            cfg.set = if (run / 16) % 2 == 0 { 2 } else { 1 };
+            cfg.xt = cfg.set == 1;
+            cfg.rate = 3;
+            cfg.obj = ((run / 32) % 2) as u8;
+            let g = run / 32;
+            let mut ops: Vec<TOp> = Vec::new();
+            let mut t = 0u64;
+            for j in 0..16u64 {
+                let w = (g * 16 + j) % (1 << 24);
+                for b in [(w >> 16) as u8, (w >> 8) as u8, w as u8, 0x1C] {
+                    ops.push(TOp { t, op: Op::Byte { b } });
+                    t += MS;
+                }
+            }
+            for _ in 0..rng.range(0, 60) {
+                ops.push(TOp { t, op: Op::Byte { b: rng.byte() } });
+                t += MS;
+            }
+            // the keyboard recovers: an ordinary key typed twice
+            let known = known_phys(&cfg);
+            for _ in 0..3 {
+                let (kp, kc) = *rng.pick(&known);
+                ops.push(TOp { t, op: Op::Key { pfx: kp, code: kc, brk: false, fault: BFault::None } });
+                ops.push(TOp { t: t + 1, op: Op::Key { pfx: kp, code: kc, brk: true, fault: BFault::None } });
+                t += 10 * MS;
+            }
+            return Trace { prop: self.pid().to_string(), cfg, ops, seed: 0, run, expect: None };
+        }
         let rate_class = (run % 4) as u8;
         cfg.rate = rate_class;
         cfg.obj = ((run / 16) % 2) as u8; // 1: the decoder under test is built through Default
